@@ -202,3 +202,20 @@ Definition rotate_data {B} (k : nat) (l : list B) : list B := skipn k l ++ first
 Definition scale_values (p : T) (d : list (T * T)) : list (T * T) := map (fun q => ((p * fst q)%num, snd q)) d.
 Definition scale_weights (p : T) (d : list (T * T)) : list (T * T) := map (fun q => (fst q, (p * snd q)%num)) d.
 End Num.
+
+(** Sessions: several requests answered one after the other in one process.  No helper of this property reads the
+    ambient state of the process - errno, the floating-point exception flags, the state of the standard streams,
+    whatever earlier calls of these helpers, of other library facilities or of the caller's own code left there -
+    and none keeps a static of its own: a call is [answer req], a function of the request alone.  What a call or an
+    unrelated event (a density evaluated far in its tail, a failed stream operation) leaves behind is an arbitrary
+    [leaves : Req -> Amb -> Amb]; events of the caller's side are requests whose answer carries no information. *)
+Section Session.
+Context {Amb Req Out : Type}.
+Variable answer : Req -> Out.
+Variable leaves : Req -> Amb -> Amb.
+Fixpoint session (a : Amb) (rs : list Req) : list Out :=
+  match rs with
+  | [] => []
+  | r :: t => answer r :: session (leaves r a) t
+  end.
+End Session.
